@@ -64,12 +64,93 @@ Definition starts_fresh (pre mid suf : list nop) : bool :=
 
 Definition glue_C17 (k : string) (a o : list value) : option verdict :=
   if is k "lucky.new" then
-    (* args: cap pick; observed: panicked *)
+    (* args: cap pick probe; observed: panicked, the outputs of the probe history on the constructed filter
+       (the probe makes the effective window size and pick count visible: the oracle is the selection rule
+       for capacity cap and pick count pick as given to the constructor) *)
     match a, o with
-    | [VZ cap; VZ pick], [VZ pan] =>
-        let should := (cap <=? 0) || (pick <=? 0) in
-        Some (functional [vbool (match lucky_new cap pick with None => true | Some _ => false end)] o
-                (Bool.eqb should (negb (pan =? 0))))
+    | [VZ cap; VZ pick; VL ops], [VZ pan; VL obs] =>
+        match lops_of ops, getZs obs with
+        | Some ops, Some obs =>
+            let should := (cap <=? 0) || (pick <=? 0) in
+            match lucky_new cap pick with
+            | None => Some (functional [VZ 1; VL []] o (Bool.eqb should (negb (pan =? 0))))
+            | Some f =>
+                let oracle := Bool.eqb should (negb (pan =? 0)) && C17_lucky_ok (Z.to_nat cap) (Z.to_nat pick) ops obs in
+                let ws := lucky_windows (lk_cap f) [] ops in
+                if forallb lucky_exact_window ws then
+                  match lucky_run f ops with
+                  | Some exp => Some (functional [VZ 0; VL (map VZ exp)] o oracle)
+                  | None => Some (relational (negb (pan =? 0)) oracle)
+                  end
+                else Some (relational ((pan =? 0) && accepts_all (lk_pick f) ws obs) oracle)
+            end
+        | _, _ => None end
+    | _, _ => None end
+  else if is k "lucky.inter" then
+    (* args: [[cap pick ops] ...] schedule; two or three filter instances called in the interleaved order
+       of the schedule; observed: the outputs of each instance, panicked.  Each instance against its own
+       model run and its own oracle: the schedule must not matter. *)
+    match a, o with
+    | [VL insts; VL _], [VL obss; VZ pan] =>
+        let one (io : value * value) : option (value * bool * bool) :=
+          match io with
+          | (VL [VZ cap; VZ pick; VL ops], VL obs) =>
+              match lops_of ops, getZs obs, lucky_new cap pick with
+              | Some ops, Some obs, Some f =>
+                  let ws := lucky_windows (lk_cap f) [] ops in
+                  let oracle := C17_lucky_ok (Z.to_nat cap) (Z.to_nat pick) ops obs in
+                  match lucky_run f ops with
+                  | Some exp => Some (VL (map VZ exp), accepts_all (lk_pick f) ws obs, oracle)
+                  | None => None
+                  end
+              | _, _, _ => None
+              end
+          | _ => None
+          end in
+        if Nat.eqb (length insts) (length obss) then
+          let rs := map one (combine insts obss) in
+          if forallb (fun r => match r with Some _ => true | None => false end) rs then
+            let get (r : option (value * bool * bool)) := match r with Some x => x | None => (VL [], false, false) end in
+            let exp := map (fun r => fst (fst (get r))) rs in
+            let agree := forallb (fun r => snd (fst (get r))) rs in
+            let oracle := (pan =? 0) && forallb (fun r => snd (get r)) rs in
+            if agree then Some (functional [VL exp; VZ 0] o oracle) else Some (relational false oracle)
+          else None
+        else None
+    | _, _ => None end
+  else if is k "ntimed.inter" then
+    match a, o with
+    | [VL streams; VL _], [VL obss; VZ pan] =>
+        let one (io : value * value) : option (value * bool) :=
+          match io with
+          | (VL ops, VL obs) =>
+              match nops_of ops, getZs obs with
+              | Some ops, Some obs =>
+                  let tr := nt_trace (nt_zero 0) ops in
+                  let within := map (fun i => negb (ni_fail_lo i) && negb (ni_fail_hi i)) tr in
+                  Some (VL (map VZ (map ni_out tr)),
+                        C17_ntimed_steps_ok (do_samples ops) (since_counts 0 0 ops) within obs)
+              | _, _ => None
+              end
+          | _ => None
+          end in
+        if Nat.eqb (length streams) (length obss) then
+          let rs := map one (combine streams obss) in
+          if forallb (fun r => match r with Some _ => true | None => false end) rs then
+            let get (r : option (value * bool)) := match r with Some x => x | None => (VL [], false) end in
+            Some (functional [VL (map (fun r => fst (get r)) rs); VZ 0] o
+                    ((pan =? 0) && forallb (fun r => snd (get r)) rs))
+          else None
+        else None
+    | _, _ => None end
+  else if is k "ntimed.epochsrc" then
+    (* the syntactic tie between SystemClock.Step and a new epoch: six entries, all must be 1 *)
+    match a, o with
+    | [VZ n], [VL flags] =>
+        match getZs flags with
+        | Some fl => Some (functional [VL (map VZ (repeat 1 6))] o
+                             ((n =? 6) && Nat.eqb (length fl) 6 && forallb (fun x => x =? 1) fl))
+        | None => None end
     | _, _ => None end
   else if is k "lucky.hist" || is k "lucky.wild" then
     (* args: cap pick ops (cap = 0: the unconfigured filter); observed: the output of every Do, panicked *)
